@@ -22,10 +22,17 @@ def main():
         cov = coverage.Coverage(data_file=os.path.join(os.environ["GSV_COVERAGE"], f".coverage.{a.prop}.{seed}"),
                                 source=[core.SRC], branch=True)
         cov.start()
+    kw = None
+    if os.environ.get("GSV_KWCOV"):
+        # development aid: which keyword parameters of gstools are ever given non-default values (vlib/kwcov.py reports)
+        import kwcov as kw
+        kw.install()
     try:
         try:
             rc = core.run_check(a.prop, a.tier, seed, a.replay)
         finally:
+            if kw is not None:
+                kw.dump(os.environ["GSV_KWCOV"], f"{a.prop}.{seed}")
             if cov is not None:
                 cov.stop()
                 cov.save()
